@@ -104,6 +104,19 @@ def run_file(case):
             got = su.hash_checksums(file_path=Path(path),
                                     hashes=tuple(case["algos"]))
         want = reference(data, case["algos"])
+        if tuple(got) == want and n > 0:
+            # the file changes in place to other content of the same size,
+            # time stamps restored (bit rot / `cp -p`): hashed again in the
+            # same process the digest must be the one of the new bytes
+            st0 = os.stat(path)
+            data = bytes(b ^ 0x5A for b in data[:64]) + data[64:]
+            with fslayer.real_open(path, "r+b") as f:
+                f.write(data)
+            os.utime(path, ns=(st0.st_atime_ns, st0.st_mtime_ns))
+            with fs:
+                got = su.hash_checksums(file_path=Path(path),
+                                        hashes=tuple(case["algos"]))
+            want = reference(data, case["algos"])
         if tuple(got) != want:
             bad = [i for i, (g, w) in enumerate(zip(got, want)) if g != w]
             out.update(
